@@ -13,11 +13,12 @@ import (
 type V = jsonv.Value
 
 type Mutant struct {
-	Kind  string       `json:"kind"`
-	At    string       `json:"at"`    // path of the mutated node in the ORIGINAL document
-	Focus doctree.Path `json:"focus"` // path of the node that carries the fault in the MUTATED document
-	Names []string     `json:"names"` // names by which other nodes may refer to the mutated node
-	Tree  *V           `json:"-"`
+	Kind   string       `json:"kind"`
+	At     string       `json:"at"`               // path of the mutated node in the ORIGINAL document
+	Focus  doctree.Path `json:"focus"`            // path of the node that carries the fault in the MUTATED document
+	Names  []string     `json:"names"`            // names by which other nodes may refer to the mutated node
+	Strict bool         `json:"strict,omitempty"` // the diagnostic must be located at the focus itself (or below), not above it
+	Tree   *V           `json:"-"`
 }
 
 // namesOf collects what other parts of a document may use to mention the node at p:
@@ -133,8 +134,11 @@ func deepArr(n int) *V {
 	return v
 }
 
+// DeepLevels is the nesting depth of the deep-nesting kinds.
+var DeepLevels = 1000
+
 // Kinds lists every mutation kind.
-var Kinds = []string{"delete", "null", "retype-scalar", "retype-map", "retype-seq", "num-string", "duplicate-key", "rename-collide", "break-escape", "dangling-ref", "self-ref", "huge-number", "negative-number", "big-integer", "deep-nesting", "deep-array", "empty-map", "empty-string", "long-string"}
+var Kinds = []string{"allof-cycle-inline", "allof-cycle-direct", "path-template-error", "delete", "null", "retype-scalar", "retype-map", "retype-seq", "num-string", "duplicate-key", "rename-collide", "break-escape", "dangling-ref", "self-ref", "huge-number", "negative-number", "big-integer", "deep-nesting", "deep-array", "empty-map", "empty-string", "long-string"}
 
 // At produces the mutant of the given kind at path p, or nil when not applicable.
 func At(root *V, p doctree.Path, kind string) *Mutant {
@@ -217,6 +221,40 @@ func At(root *V, p doctree.Path, kind string) *Mutant {
 					parent.Members[i].Name = nn
 					m.Focus = append(append(doctree.Path{}, parentPath...), nn)
 					m.Names = append(m.Names, nn)
+					m.Strict = true
+					ok = true
+					break
+				}
+			}
+		}
+	case "allof-cycle-inline", "allof-cycle-direct":
+		// a component schema that refers back to itself through allOf (directly, or through an inline
+		// wrapper whose own allOf has two members): must end in a located diagnostic, not in a crash
+		if orig.Kind == jsonv.Object && len(p) == 3 && p[0] == "components" && p[1] == "schemas" {
+			self := "#/components/schemas/" + strings.ReplaceAll(strings.ReplaceAll(p[2], "~", "~0"), "/", "~1")
+			var txt string
+			if kind == "allof-cycle-inline" {
+				txt = `{"allOf":[{"allOf":[{"$ref":"` + self + `"},{"type":"object","properties":{"zz1":{"type":"string"}}}]},{"type":"object","properties":{"zz2":{"type":"integer"}}}]}`
+			} else {
+				txt = `{"allOf":[{"$ref":"` + self + `"},{"type":"object","properties":{"zz2":{"type":"integer"}}}]}`
+			}
+			if nv, err := jsonv.Parse([]byte(txt)); err == nil {
+				ok = setAt(t, p, nv)
+			}
+		}
+	case "path-template-error":
+		// a path key with a valid but non-canonical escape AND a template fault: the diagnostic belongs to that key
+		if parent != nil && parent.Kind == jsonv.Object && len(parentPath) == 1 && parentPath[0] == "paths" {
+			for i := range parent.Members {
+				if parent.Members[i].Name == p[len(p)-1] {
+					nn := parent.Members[i].Name + "/%2f%41?x=1"
+					if i%2 == 1 {
+						nn = parent.Members[i].Name + "/%7e/{zzdup}/{zzdup}"
+					}
+					parent.Members[i].Name = nn
+					m.Focus = append(append(doctree.Path{}, parentPath...), nn)
+					m.Names = append(m.Names, nn)
+					m.Strict = true
 					ok = true
 					break
 				}
@@ -250,11 +288,11 @@ func At(root *V, p doctree.Path, kind string) *Mutant {
 		}
 	case "deep-nesting":
 		if orig.Kind == jsonv.Object && (p[len(p)-1] == "schema" || (len(p) >= 2 && p[len(p)-2] == "schemas")) {
-			ok = setAt(t, p, deep(1000))
+			ok = setAt(t, p, deep(DeepLevels))
 		}
 	case "deep-array":
 		if p[len(p)-1] == "example" || p[len(p)-1] == "default" || p[len(p)-1] == "enum" {
-			ok = setAt(t, p, deepArr(1000))
+			ok = setAt(t, p, deepArr(DeepLevels))
 		}
 	case "empty-map":
 		if orig.Kind == jsonv.Object && len(orig.Members) > 0 {
